@@ -18,6 +18,8 @@ func main() {
 	switch c.Prop {
 	case "C03":
 		r = net.C03(c)
+	case "C06":
+		r = net.C06(c)
 	default:
 		fmt.Fprintln(os.Stderr, "worker-net: unknown property", c.Prop)
 		os.Exit(2)
